@@ -47,10 +47,11 @@ CLAIMED = {
     "C05": dict(
         text=("Proof: for every pipeline of command frames, every handler and EVERY segmentation of the request bytes the connection loop emits exactly the sequential replies "
               "(same number, order, content, final state, connection open); a protocol violation is answered with an error after the preceding replies and the connection closed; "
-              "error/simple-string replies frame correctly whatever bytes their text carries - Lean theorems over Model/Conn.lean built on C20's chunking independence; the same "
+              "error/simple-string replies frame correctly whatever bytes their text carries; every reply byte goes out exactly once and in order under EVERY pattern of partial socket writes "
+              "(write-buffer model of Connection::flush) - Lean theorems over Model/Conn.lean built on C20's chunking independence; the same "
               "segments are given to the real server and to `connRun` over KS.step and compared frame by frame (pipelines up to 200 commands, byte-at-a-time and CRLF-splitting "
               "segmentations, protocol errors, non-command frames, SUBSCRIBE-family pipelines, every dispatched name x arity/type matrix)."),
-        note=TB + "Handlers are a parameter of the theorems; partial writes/back-pressure are exercised, not modelled; blocking pops, MONITOR, SYNC and transactions are judged by their own properties.",
+        note=TB + "Handlers are a parameter of the theorems; the write path (partial writes, back-pressure) is a separate small model (write_path_delivers_exactly, tied by Gen.writeOffsetAdvances and exercised with multi-megabyte replies), not composed with connRun; blocking pops, MONITOR, SYNC and transactions are judged by their own properties.",
         ref="DESIGN.md section 5 C05"),
     "C06": dict(
         text=("PARTIAL by nature. Proof: every arithmetic site fed by client input that can panic or abort (GETRANGE slice bounds, SETRANGE allocation and its 512 MB limit, "
